@@ -46,9 +46,9 @@ CHECKS["C07"] = dict(
     category="proof",
     text="Lean 4 theorems for every integer timestamp (omega calendar): DATE_TRUNC(g,t) is idempotent, <= t < next; weeks start Monday midnight; month/quarter/year start on day 1 of a month aligned to 1/3/12; "
          "a requested granularity evaluates to trunc g of the dimension's value (several granularities are independent keys of the flat query); default time dimension added iff a metric of the model is requested and no time dimension is; "
-         "invalid granularity and granularity on a non-time field rejected (after fix cff5de5). Tie: trunc vs DuckDB; validate_query/_apply_default_time_dimensions vs Lean on generated reference lists; C01 arms on time-heavy cases; additive roll-up relation checked on real rows for all refining pairs.",
+         "invalid granularity and granularity on a non-time field rejected (after fix cff5de5); additive roll-up: re-aggregating per-P-bucket SUMs/COUNTs by the Q bucket equals grouping by Q directly for every refining pair and every table. Tie: trunc vs DuckDB; validate_query/_apply_default_time_dimensions vs Lean on generated reference lists; C01 arms on time-heavy cases; additive roll-up relation checked on real rows for all refining pairs.",
     design_ref="DESIGN.md §4 C07",
-    note="Partial: the additive roll-up relation (coarse = sum of nested fine buckets) is checked on real rows by the run, it is not yet a Lean theorem (it follows from C09 refinement + a partition-of-sums lemma that is not proved). Trusted base as for C01/C09.",
+    note="The additive roll-up relation is a theorem for SUM and COUNT over every refining pair (C07_rollup_additive_sum/_count, from the C09 refinement and the partition lemmas of Proofs/Reagg) at the level of keyed bags; the printed SQL is tied to that form by the real-row roll-up check of the run. Trusted base as for C01/C09.",
     technique="Lean 4 proof (omega calendar, model of validate_query and default-time-dimension rule) + correspondence + roll-up oracle on DuckDB",
 )
 
